@@ -317,6 +317,66 @@ func (m *monitor) always(im *impl, k int) {
 			m.violAlways(k, fmt.Sprintf("rate-limiter-drift: recorded in-memory log size %d, the in-memory entries take %d", sz, want))
 		}
 	}
+	m.boundaries(im, k)
+}
+
+// boundaries: what term(i) and getEntries must answer where the in-memory window,
+// the reader's claimed range and what the store really holds do not line up (store
+// compacted by another path, reader range shorter or longer than the store). The
+// answer is decided by the logical situation alone, including WHICH error:
+//   - inside [first, last] a term is never a silent 0: the entry is there (term >= 1) or an error says why not;
+//   - an index above the reader's range and below the in-memory window is ErrUnavailable,
+//     whatever the store happens to hold there;
+//   - a range whose front is missing from the store while later entries are present has
+//     been compacted: an error, and ErrCompacted when the store hands out the later part.
+func (m *monitor) boundaries(im *impl, k int) {
+	f, l := im.log.FirstIndex(), im.log.LastIndex()
+	inm := im.log.InMem()
+	if inm.HasSnapshot || l < f || l-f > 400 {
+		return
+	}
+	rf, rl := im.lr.GetRange()
+	mk := inm.MarkerIndex
+	for i := f; i <= l; i++ {
+		t := im.term(i)
+		if t == "0" {
+			m.violAlways(k, fmt.Sprintf("silent-zero-term: term(%d)=0 without error inside [first=%d,last=%d] (in-memory from %d, reader range [%d,%d])", i, f, l, mk, rf, rl))
+			return
+		}
+		if i > rl && i < mk && i != inm.AppliedToIndex && t != "err:unavailable" {
+			m.violAlways(k, fmt.Sprintf("beyond-reader-range: term(%d)=%s, but the index is above the persisted range [%d,%d] and below the in-memory window (from %d): must be ErrUnavailable", i, t, rf, rl, mk))
+			return
+		}
+	}
+	if f >= mk || f != rf {
+		return
+	}
+	up := l + 1
+	if mk < up {
+		up = mk
+	}
+	all := im.entries(f, l+1, math.MaxUint64)
+	if up > rl+1 {
+		if all != "err:unavailable" {
+			m.violAlways(k, fmt.Sprintf("beyond-reader-range: entries[%d,%d)=%s needs [%d,%d) from a reader whose range ends at %d: must be ErrUnavailable", f, l+1, all, f, up, rl))
+		}
+		return
+	}
+	_, okFront := im.st.get(f)
+	later := false
+	for i := f + 1; i < up; i++ {
+		if _, ok := im.st.get(i); ok {
+			later = true
+			break
+		}
+	}
+	if !okFront && later {
+		if !strings.HasPrefix(all, "err:") {
+			m.violAlways(k, fmt.Sprintf("front-hole-served: entries[%d,%d)=%s although the store no longer holds index %d", f, l+1, all, f))
+		} else if ms, isMem := im.st.(*memStore); isMem && ms.front && all != "err:compacted" {
+			m.violAlways(k, fmt.Sprintf("front-hole-not-compacted: entries[%d,%d)=%s; the store answered with a range starting above %d: must be ErrCompacted", f, l+1, all, f))
+		}
+	}
 }
 
 func (m *monitor) violAlways(k int, msg string) {
